@@ -230,6 +230,24 @@ fn roundtrip<C: Suite, T: Wire<C>>(vals: &[T], ctx: &mut Ctx) {
                 Err(e) => ctx.viol("roundtrip", &format!("json-encode/{}", T::NAME), d("value does not encode to JSON", json!({"err": e}))),
             }
             ctx.count("json_roundtrips");
+            // a self-describing form that lost one member is not an encoding of anything. The single documented exception
+            // is the threshold of a public key package (absent in packages written before it existed).
+            if ctx.counts.get(&format!("json_member_deletions/{}", T::NAME)).copied().unwrap_or(0) < 40 {
+                if let Some(Value::Object(obj)) = v.to_json().ok().and_then(|s| serde_json::from_str::<Value>(&s).ok()) {
+                    for key in obj.keys() {
+                        let mut o2 = obj.clone();
+                        o2.remove(key);
+                        let txt = Value::Object(o2).to_string();
+                        let acc = T::from_json(&txt).is_ok();
+                        let optional = T::NAME == "PublicKeyPackage" && key == "min_signers";
+                        if acc && !optional {
+                            ctx.viol("json-missing-member-accepted", &format!("{}/{key}", T::NAME), d("JSON form without one of its members decodes", json!({"json": txt})));
+                        }
+                        ctx.count(&format!("json_member_deletions/{}", T::NAME));
+                        ctx.count("json_member_deletions");
+                    }
+                }
+            }
         }
         ctx.count("binary_roundtrips");
     }
